@@ -174,6 +174,7 @@ class WaitFamily final : public vf::Family {
     }
     return d;
   }
+#ifndef VF_NO_RC
   rc::Gen<Case> Gen() const final {
     return rc::gen::exec([]() {
       Case c;
@@ -183,6 +184,7 @@ class WaitFamily final : public vf::Family {
       return c;
     });
   }
+#endif
   std::vector<Case> DfsPrograms(int tier) const final {
     std::vector<Case> out;
     for (int kind = 0; kind < kWaitKindN; ++kind) {
@@ -492,6 +494,7 @@ class GroupFamily final : public vf::Family {
            "began / Ready with their value afterwards, consumed payloads destroyed once; non-trivial = a waiter was "
            "registered (blocked or suspended) before the count reached zero; distinct = (program, fiber trace)";
   }
+#ifndef VF_NO_RC
   rc::Gen<Case> Gen() const final {
     return rc::gen::exec([]() {
       Case c;
@@ -506,6 +509,7 @@ class GroupFamily final : public vf::Family {
       return c;
     });
   }
+#endif
   std::vector<Case> DfsPrograms(int tier) const final {
     std::vector<Case> out;
     for (int mode = 0; mode < 2; ++mode) {
